@@ -115,5 +115,8 @@ func RewriteClause(decls map[ast.PredicateSym]*ast.Decl, clause ast.Clause) ast.
 			}
 		}
 	}
+	// Negated atoms whose variables never got bound stay in the clause so that
+	// validation can reject it instead of silently dropping them.
+	premises = append(premises, delayNegAtom...)
 	return ast.Clause{Head: clause.Head, HeadTime: clause.HeadTime, Premises: premises, Transform: clause.Transform}
 }
